@@ -941,7 +941,20 @@ class Envelope:
             t_a=delay, omega_a=(C0 / n) / other.wavelength
         )
         integrand = lambda x: np.conj(f1(x)) * f2(x)
-        result, _ = quad(integrand, -np.inf, np.inf)
+        # The profiles are localized around their centers; quadrature over the
+        # whole real line does not find pulses much narrower than one second
+        p1 = self.temporal_profile.params
+        p2 = other.temporal_profile.params
+        centers = sorted([p1.get("mu", 0), delay + p2.get("mu", 0)])
+        width = max(abs(p1.get("sigma", 1)), abs(p2.get("sigma", 1)))
+        result, _ = quad(
+            integrand,
+            centers[0] - 12 * width,
+            centers[1] + 12 * width,
+            points=centers if centers[0] != centers[1] else centers[:1],
+            epsabs=0,
+            limit=200,
+        )
 
         return result
 
